@@ -627,6 +627,7 @@ type refClient struct {
 	cur   int
 	first bool
 	rec   bool
+	full  bool // has seen every state page (or held the state before): only then convergence is owed to it
 	// position the last request was sent with (for the recovery monitor)
 	reqOff int
 }
@@ -664,6 +665,7 @@ func (c *refClient) onFrame(f frame, epStr string) {
 		c.cur = f.Cur
 		if f.Cur == 0 {
 			c.ph = "stream"
+			c.full = true
 		}
 	case "stream":
 		c.applyPubs(f.Pubs, c.off)
@@ -671,6 +673,7 @@ func (c *refClient) onFrame(f frame, epStr string) {
 	case "live":
 		c.applyEnts(f.Ents)
 		c.applyPubs(f.Pubs, c.off)
+		c.full = c.full || c.ph == "state" // a STATE request answered LIVE was the last page
 		c.off, c.ep, c.epStr, c.ph, c.first, c.cur = f.Off, f.Ep, epStr, "live", false, 0
 	case "pub":
 		if c.ph == "live" {
@@ -1005,6 +1008,9 @@ func (r *runner) transitionKind() string {
 func (r *runner) judge(prefix string) (*verdict, string) {
 	if r.rc.ph != "live" {
 		return nil, "" // told / gone: explicit end
+	}
+	if !r.rc.full {
+		return nil, "" // went live without having seen every state page (an accepted out-of-order move): no convergence owed
 	}
 	top := 0
 	if r.mode != "eph" {
@@ -1480,9 +1486,17 @@ func (w *worker) run(bi int, try int, beh []map[string]any, res *attempt, maxRes
 					c.m[k] = id
 				}
 			}
-			c.off, c.ep, c.epStr, c.first, c.rec = top, r.epochNum(ep), ep, false, true
+			c.off, c.ep, c.epStr, c.first, c.rec, c.full = top, r.epochNum(ep), ep, false, true, true
 			c.ph = map[bool]string{true: "join", false: "stream"}[r.kind == "rlive"]
 			r.rc = c
+		case "Jump":
+			// an out-of-order move the code accepts for one reservation: the client changes its mind about the next request
+			to := vh.Str(step["to"])
+			if r.rc.first || r.rc.ph == "live" || r.rc.ph == "told" || r.rc.ph == "gone" {
+				diverged(fmt.Sprintf("the model's client jumps to %s, the real client is in phase %q", to, r.rc.ph))
+				break
+			}
+			r.rc.ph = to
 		case "Resub":
 			if r.rc.ph != "told" {
 				diverged(fmt.Sprintf("the model's client resubscribes, the real client is in phase %q", r.rc.ph))
@@ -1570,7 +1584,7 @@ func (w *worker) run(bi int, try int, beh []map[string]any, res *attempt, maxRes
 		}
 		// C22 at quiescent points: the real client map against the real broker state
 		mcl := vh.Map(st["cl"])
-		quiescent := len(vh.List(st["wire"])) == 0 && r.rc.ph == "live" && vh.Str(mcl["ph"]) == "live"
+		quiescent := len(vh.List(st["wire"])) == 0 && r.rc.ph == "live" && vh.Str(mcl["ph"]) == "live" && r.rc.full
 		if quiescent {
 			msub := vh.Map(st["sub"])
 			posValid := r.mode == "eph" || vh.Int(msub["ep"]) == vh.Int(st["epoch"])
@@ -1897,7 +1911,7 @@ func windows(_ json.RawMessage, res *vh.Result) error {
 				for k, id := range bs {
 					c.m[k] = id
 				}
-				c.off, c.ep, c.epStr, c.first, c.rec = top, r.epochNum(ep), ep, false, true
+				c.off, c.ep, c.epStr, c.first, c.rec, c.full = top, r.epochNum(ep), ep, false, true, true
 				c.ph = map[bool]string{true: "join", false: "stream"}[sc.kind == "rlive"]
 				r.rc = c
 				if err := r.publish(2, 1); err != nil {
@@ -1984,6 +1998,145 @@ func windows(_ json.RawMessage, res *vh.Result) error {
 		}()
 		if err != nil {
 			return fmt.Errorf("schedule %s: %w", sc.name, err)
+		}
+	}
+	return joinSchedules(w, res)
+}
+
+// joinSchedules: a LIVE request with recover ("paginated join") for a channel whose reservation from earlier STATE pages
+// is still installed - the command skips OnSubscribe and reuses the stored options and filters.  Server tags filter
+// keeps tag "keep"; k1 is tagged keep, k2 drop.
+//
+//	join:pages-pending   first state page of two, a change of k2 in the gap, LIVE join from that page's position,
+//	                     then k2 and k1 change live;
+//	join:state-complete  single state page answered STATE because three changes of k2 land between the state read and
+//	                     the top probe, LIVE join from the state position, then k2 changes live.
+//
+// Monitors: nothing excluded by the filter in any frame (C16); convergence on the filtered view when the client has
+// seen every state page (C22).
+func joinSchedules(w *worker, res *vh.Result) error {
+	for i, name := range []string{"join:pages-pending", "join:state-complete"} {
+		err := func() error {
+			page := 1
+			if name == "join:state-complete" {
+				page = 2
+			}
+			r := &runner{w: w, ch: fmt.Sprintf("join%d_%d", vh.Seed(), i), mode: "per", kind: "fresh", filt: true, sf: true, page: page, ssize: 8,
+				ktag: map[int]string{1: "keep", 2: "drop"}, deliveries: map[int]delivery{}, epochs: map[string]int{}, cmdIDs: map[uint32]string{}, refreshAt: -1, delivAt: map[int]string{}}
+			w.register(r)
+			defer w.unregister(r)
+			conn, err := w.env.NewConn("u", centrifuge.ProtocolTypeJSON)
+			if err != nil {
+				return err
+			}
+			r.conn = conn
+			defer func() { conn.Client.Disconnect(); conn.Cancel() }()
+			if conn.Connect() == nil {
+				return fmt.Errorf("connect failed")
+			}
+			r.registerEpoch(1)
+			r.rc = freshClient()
+			next := 0
+			var steps []string
+			change := func(key int, deliver bool) error {
+				next++
+				if err := r.publish(next, key); err != nil {
+					return err
+				}
+				d, _ := r.take(next)
+				r.delivAt[next] = "idle"
+				steps = append(steps, fmt.Sprintf("publish %s (#%d, tag %s)", keyName(key), next, r.ktag[key]))
+				if deliver {
+					return w.gb.handler.HandlePublication(r.ch, d.pub, d.sp, false, nil)
+				}
+				return nil // nobody subscribed: the delivery reaches no one
+			}
+			var actErr error
+			if name == "join:pages-pending" {
+				if err := change(1, false); err != nil {
+					return err
+				}
+				if err := change(2, false); err != nil {
+					return err
+				}
+				if !r.drive("", nil) {
+					return fmt.Errorf("first state page did not finish")
+				}
+				steps = append(steps, "STATE request, page size 1 (cursor pending)")
+				r.settle()
+				if err := change(2, false); err != nil {
+					return err
+				}
+			} else {
+				if err := change(1, false); err != nil {
+					return err
+				}
+				ok := r.drive("sr", func() {
+					for j := 0; j < 3 && actErr == nil; j++ {
+						actErr = change(2, false)
+					}
+				})
+				if actErr != nil {
+					return actErr
+				}
+				if !ok {
+					return fmt.Errorf("state page did not finish")
+				}
+				steps = append(steps, "STATE request, page size 2; the three changes land after the state read, before the top probe")
+				r.settle()
+			}
+			replayObj := func() map[string]any {
+				return map[string]any{"schedule": name, "steps": steps, "frames": r.project(), "client_map": fmtMap(r.rc.m)}
+			}
+			if r.rc.ph != "state" && r.rc.ph != "stream" {
+				res.Drift("", fmt.Sprintf("directed schedule %s: after the STATE request the client is in phase %q (expected a pending reservation)", name, r.rc.ph), replayObj())
+				res.Done(1, 0)
+				return nil
+			}
+			r.rc.ph = "join"
+			steps = append(steps, fmt.Sprintf("LIVE request with recover from offset %d (reservation still installed)", r.rc.off))
+			if !r.drive("", nil) {
+				res.Drift("", "directed schedule "+name+": the LIVE request did not finish", replayObj())
+				res.Done(1, 0)
+				return nil
+			}
+			r.mu.Lock()
+			r.gates = nil
+			r.mu.Unlock()
+			_, vs := r.settle()
+			if r.rc.ph == "live" {
+				if err := change(2, true); err != nil {
+					return err
+				}
+				if err := change(1, true); err != nil {
+					return err
+				}
+				_, v2 := r.settle()
+				vs = append(vs, v2...)
+			}
+			seen := map[string]bool{}
+			for _, v := range vs {
+				if !seen[v.sig] {
+					seen[v.sig] = true
+					res.Violate(v.prop, v.sig, v.what+" (directed schedule "+name+")", replayObj())
+				}
+			}
+			if r.rc.ph != "live" {
+				res.Drift("", fmt.Sprintf("directed schedule %s: the LIVE join ended in phase %q", name, r.rc.ph), replayObj())
+				res.Done(1, 0)
+				return nil
+			}
+			if v, problem := r.judge("directed schedule " + name + ": "); v != nil {
+				res.Violate(v.prop, v.sig, v.what, replayObj())
+			} else if problem != "" {
+				res.Drift("", "directed schedule "+name+": "+problem, replayObj())
+			}
+			res.Distinct(name)
+			res.Done(1, 1)
+			return nil
+		}()
+		if err != nil {
+			return fmt.Errorf("schedule %s: %w", name, err)
 		}
 	}
 	return nil
